@@ -12,7 +12,7 @@ use std::ffi::CString;
 pub const INFO: CheckInfo = CheckInfo {
     prop: "C18",
     level: "fault_enumeration",
-    rule: "fault enumeration: a set of API call histories (init/calls/end, copy mid-stream with both streams continued, reset, params, dictionary, failed init, inflateBackInit/End, several streams sharing one allocator, streams given only one of zalloc/zfree; gzopen/gzdopen -> gzbuffer -> read|write|getc|ungetc|puts|seek|flush -> close, reading a gzip / plain / empty / one-byte / two-member / garbage-trailed / truncated file, writing in modes wb / ab / wT / wb9f) is first run with a counting allocator to learn the number N of allocation requests, then re-run once for EVERY k in [0,N) with only request k failing and once for every k with all requests from k on failing. Oracle: the call during which a request failed reports Z_MEM_ERROR (a NULL gz handle / error return for gz calls); End on the faulted z_stream is safe and re-initialisation works; at the end every block has been released exactly once with the right opaque and nothing else was released (guard-paged allocator, freed blocks unmapped so any use-after-free faults; byte-balanced global allocator for the gz layer); a bystander stream created before the fault produces the same output as when run alone. distinct_nontrivial = distinct (history, fault plan, per-step status) outcomes.",
+    rule: "fault enumeration: a set of API call histories (init/calls/end, copy mid-stream with both streams continued, reset, params, dictionary, failed init, inflateBackInit/End, several streams sharing one allocator, streams given only one of zalloc/zfree; gzopen/gzdopen -> gzbuffer -> read|write|getc|ungetc|puts|seek|flush -> close, reading a gzip / plain / empty / one-byte / two-member / garbage-trailed / truncated file, writing in modes wb / ab / wT / wb9f) is first run with a counting allocator to learn the number N of allocation requests, then re-run once for EVERY k in [0,N) with only request k failing and once for every k with all requests from k on failing. Oracle: the call during which a request failed reports Z_MEM_ERROR (a NULL gz handle / error return for gz calls); End on the faulted z_stream is safe and re-initialisation works; at the end every block has been released exactly once with the right opaque and nothing else was released (guard-paged allocator, freed blocks unmapped so any use-after-free faults; byte-balanced global allocator for the gz layer); a bystander stream created before the fault produces the same output as when run alone. Family init-verdict-balanced: inflateInit2_ with every windowBits in -72..=136 and extremes, deflateInit2_ over windowBits -20..=48 x 10 settings of the other arguments, inflateBackInit_ over -2..=24 x {window, NULL}, each under {no fault, request 0 fails, request 1 fails, every request fails}: a rejected init holds no block when it returns and End releases nothing more. distinct_nontrivial = distinct (history, fault plan, per-step status) outcomes.",
     assumptions: &["histories outside the enumerated set and simultaneous multiple independent failures other than 'all from k on' are not covered", "the gz layer uses the Rust global allocator, which the harness wraps (counting, failing, byte balance) for the duration of a history"],
     bound_quick: "about 70 hand-written C-API histories plus every generated history of <= 2 (3) abstract operations (calls, dictionary, params, reset, copy-and-continue, copy-and-end) on 3 deflate / 3 inflate configurations; gz: every history of <= 2 operations over 10 read / 9 write operations x 7 file contents / 4 open modes x {by fd, by path}; every fail-at-k and fail-from-k",
     bound_thorough: "gz histories of <= 4 operations; the same histories with more configurations and longer call lists",
@@ -413,7 +413,6 @@ fn histories(depth: usize) -> Vec<(String, Vec<H>)> {
                 }
                 let mut h = vec![if deflate { H::DInit(0, [0usize, 1, 2][cfg]) } else { H::IInit(0, [15, -15, 31][cfg]) }];
                 let mut cur = 0usize;
-                let mut next = 1usize;
                 let mut tag = String::new();
                 for a in q {
                     match *a {
@@ -426,16 +425,17 @@ fn histories(depth: usize) -> Vec<(String, Vec<H>)> {
                             tag.push_str("reset");
                         }
                         A::CopyGo => {
+                            // the other slot is always free: every copy is followed by the end of one of the two
+                            let next = 1 - cur;
                             h.push(if deflate { H::DCopy(cur, next) } else { H::ICopy(cur, next) });
                             h.push(H::End(cur));
                             cur = next;
-                            next += 1;
                             tag.push_str("copy-go");
                         }
                         A::CopyEnd => {
+                            let next = 1 - cur;
                             h.push(if deflate { H::DCopy(cur, next) } else { H::ICopy(cur, next) });
                             h.push(H::End(next));
-                            next += 1;
                             tag.push_str("copy-end");
                         }
                     }
@@ -629,6 +629,85 @@ pub fn run(ctx: &mut Ctx) {
                         key.push(from as u32);
                         c.outcome(hash_u32s(&key));
                         c.state(hash_u32s(&[r.rets.iter().filter(|&&x| x == Z_MEM_ERROR).count() as u32, from as u32]));
+                        c.validated();
+                        Ok(())
+                    },
+                );
+            }
+        }
+    }
+    // every init entry point with EVERY argument value of a range (legal and illegal), with no fault and with the first /
+    // second / every allocation request failing: whatever the verdict, a rejected init holds no block of the caller's
+    // allocator when it returns, End on the rejected stream releases nothing, an accepted one is balanced after End
+    {
+        let mut inits: Vec<(String, u8, [i32; 5])> = vec![];
+        let mut wbs: Vec<i32> = (-72..=136).collect();
+        wbs.extend([i32::MIN, i32::MIN + 8, i32::MAX, i32::MAX - 7, 256, 264, 1 << 16, -(1 << 16)]);
+        for &wb in &wbs {
+            inits.push((format!("inflateInit2_(windowBits={wb})"), 0, [wb, 0, 0, 0, 0]));
+        }
+        for wb in -20..=48 {
+            for (level, method, ml, st) in [(6, 8, 8, 0), (0, 8, 1, 4), (9, 8, 9, 1), (10, 8, 8, 0), (-2, 8, 8, 0), (6, 7, 8, 0), (6, 8, 0, 0), (6, 8, 10, 0), (6, 8, 8, 5), (6, 8, 8, -1)] {
+                inits.push((format!("deflateInit2_(level={level}, method={method}, windowBits={wb}, memLevel={ml}, strategy={st})"), 1, [level, method, wb, ml, st]));
+            }
+        }
+        for wb in -2..=24 {
+            for null_window in [0, 1] {
+                inits.push((format!("inflateBackInit_(windowBits={wb}, window={})", if null_window == 1 { "NULL" } else { "valid" }), 2, [wb, null_window, 0, 0, 0]));
+            }
+        }
+        for (name, which, a) in &inits {
+            for plan in 0..4u64 {
+                ctx.case(
+                    "init-verdict-balanced",
+                    || format!("{name} ; End, allocator plan: {}", ["no fault", "request 0 fails", "request 1 fails", "every request fails"][plan as usize]),
+                    |c| unsafe {
+                        c.exec();
+                        let mut ctl = AllocCtl::new(0xC7);
+                        ctl.strict_uaf = true;
+                        match plan {
+                            1 => ctl.fail_at = Some(0),
+                            2 => ctl.fail_at = Some(1),
+                            3 => ctl.fail_from = Some(0),
+                            _ => {}
+                        }
+                        let mut z = wired(&mut ctl);
+                        let window = env.aux.at_end(1 << 15);
+                        let r = match which {
+                            0 => Rs::inflateInit2_(&mut *z, a[0], Rs::zlibVersion(), STREAM_SIZE),
+                            1 => Rs::deflateInit2_(&mut *z, a[0], a[1], a[2], a[3], a[4], Rs::zlibVersion(), STREAM_SIZE),
+                            _ => Rs::inflateBackInit_(&mut *z, a[0], if a[1] == 1 { std::ptr::null_mut() } else { window }, Rs::zlibVersion(), STREAM_SIZE),
+                        };
+                        if !matches!(r, Z_OK | Z_STREAM_ERROR | Z_MEM_ERROR | Z_VERSION_ERROR) {
+                            return Err(format!("init returned undocumented {}", rc_name(r)));
+                        }
+                        if r == Z_MEM_ERROR && ctl.failed == 0 {
+                            return Err("Z_MEM_ERROR although no allocation request failed".into());
+                        }
+                        if r == Z_OK && ctl.failed != 0 {
+                            return Err("Z_OK although an allocation request failed".into());
+                        }
+                        if r != Z_OK && !ctl.live.is_empty() {
+                            return Err(format!("init returned {} but holds {} block(s) ({} bytes) of the caller's allocator", rc_name(r), ctl.live.len(), ctl.live_bytes()));
+                        }
+                        let e = match which {
+                            0 => Rs::inflateEnd(&mut *z),
+                            1 => Rs::deflateEnd(&mut *z),
+                            _ => Rs::inflateBackEnd(&mut *z),
+                        };
+                        if r != Z_OK && e != Z_STREAM_ERROR {
+                            return Err(format!("End after a rejected init ({}) returned {}", rc_name(r), rc_name(e)));
+                        }
+                        if r == Z_OK && e != Z_OK {
+                            return Err(format!("End after a successful init returned {}", rc_name(e)));
+                        }
+                        if !ctl.errors.is_empty() {
+                            return Err(format!("allocator discipline: {:?}", ctl.errors));
+                        }
+                        if !ctl.live.is_empty() || ctl.total_allocs != ctl.total_frees {
+                            return Err(format!("{} block(s) still allocated after End ({} allocations, {} frees)", ctl.live.len(), ctl.total_allocs, ctl.total_frees));
+                        }
+                        c.outcome(hash_u32s(&[*which as u32, r as u32, plan as u32, ctl.total_allocs as u32]));
                         c.validated();
                         Ok(())
                     },
